@@ -1471,27 +1471,68 @@ func (b *Backend) makeFilter(m *Model, fi int) {
 		return
 	}
 	b.flt[fi] = b.buildFilter(fs)
-	b.twin[fi] = b.buildFilter(fs) // never registered; created now because fixed targets must be alive at creation
+	plain := *fs
+	plain.Order, plain.Chain = 0, false
+	b.twin[fi] = b.buildFilter(&plain) // never registered, plain builder calls; created now because fixed targets must be alive at creation
 }
 
 // buildFilter creates an unregistered typed filter from its specification.
 func (b *Backend) buildFilter(fs *FilterSpec) Filter {
 	f := FilterInsts[fs.Inst].New(b.W)
-	if len(fs.With) > 0 {
+	with := func() {
+		if len(fs.With) == 0 {
+			return
+		}
+		if fs.Order == 3 {
+			// "can be called multiple times in chains, or once with multiple arguments"
+			for _, c := range fs.With {
+				f.With(compsOf([]int{c}))
+			}
+			return
+		}
 		f.With(compsOf(fs.With))
 	}
-	if fs.Exclusive {
-		f.Exclusive()
-	} else if len(fs.Without) > 0 {
-		f.Without(compsOf(fs.Without))
-	}
-	if fs.Chain {
-		// "can be called multiple times in chains, or once with multiple arguments"
-		for i := range fs.Rels {
-			f.Relations(b.rels(fs.List(), fs.Rels[i:i+1]))
+	exclude := func() {
+		if fs.Exclusive {
+			f.Exclusive()
+		} else if len(fs.Without) > 0 {
+			if fs.Order == 3 {
+				for _, c := range fs.Without {
+					f.Without(compsOf([]int{c}))
+				}
+				return
+			}
+			f.Without(compsOf(fs.Without))
 		}
-	} else if len(fs.Rels) > 0 {
-		f.Relations(b.rels(fs.List(), fs.Rels))
+	}
+	rels := func() {
+		if fs.Chain {
+			for i := range fs.Rels {
+				f.Relations(b.rels(fs.List(), fs.Rels[i:i+1]))
+			}
+		} else if len(fs.Rels) > 0 {
+			f.Relations(b.rels(fs.List(), fs.Rels))
+		}
+	}
+	// relation targets refer to components given before (type parameters or With)
+	// and Filter.Exclusive() excludes everything that is not required at the moment it is called, so it comes after With
+	order := fs.Order
+	if fs.Exclusive && order == 1 {
+		order = 0
+	}
+	switch order {
+	case 1:
+		exclude()
+		with()
+		rels()
+	case 2:
+		with()
+		rels()
+		exclude()
+	default:
+		with()
+		exclude()
+		rels()
 	}
 	return f
 }
